@@ -233,6 +233,9 @@ func (p *planner) planSpl() error {
 			err = p.planUnwrap(&ppl)
 		} else if ppl.Drop != nil {
 			err = p.planDrop(i, &ppl)
+		} else if ppl.LabelFormat != nil {
+			// no planner is wired for it here: refuse instead of answering as if the stage were not written
+			err = &shared.NotSupportedError{Msg: "label_format is not supported before a json/logfmt/line_format stage"}
 		}
 
 		if err != nil {
